@@ -208,6 +208,10 @@ pub struct Avoid {
     pub paste_spill: bool,
     /// skip a paste whose target contains a spill cell
     pub paste_onto_spill: bool,
+    /// skip a cut while some array formula holds an array literal (listed under C16: a cut
+    /// re-prints every formula of the workbook, array literals come out malformed and the array
+    /// formula turns into a plain parse-error formula)
+    pub cut_with_array_literal: bool,
 }
 
 /// `avoid_undo_delete`: end the history before an undo of a row/column deletion whose band some
@@ -232,6 +236,26 @@ pub fn check_with(case: &Case, avoid: Avoid) -> Outcome {
             o.excluded += 1;
             o = o.label("ended:undo-of-deletion-of-referenced-band");
             break;
+        }
+        if let Op::CopyPaste { cut: true, .. } = op {
+            if avoid.cut_with_array_literal {
+                let m = um.get_model();
+                let mut literal = false;
+                for (si, ws) in m.workbook.worksheets.iter().enumerate() {
+                    for (r, rd) in &ws.sheet_data {
+                        for (c, cell) in rd {
+                            if matches!(cell, Cell::ArrayFormula { .. }) && m.get_cell_formula(si as u32, *r, *c).ok().flatten().map(|f| f.contains('{')).unwrap_or(false) {
+                                literal = true;
+                            }
+                        }
+                    }
+                }
+                if literal {
+                    o.excluded += 1;
+                    o = o.label("guard-skipped:cut-while-an-array-literal-exists");
+                    continue;
+                }
+            }
         }
         if let Op::CopyPaste { src, ts, trow, tcol, .. } = op {
             let has_spill = |sheet: u32, r1: i32, c1: i32, h: i32, w: i32| -> bool {
@@ -355,6 +379,7 @@ pub fn run(ctx: &Ctx) {
         undo_delete: ctx.avoid("c31-undo-of-deletion-of-referenced-band"),
         paste_spill: ctx.avoid("c31-paste-of-a-spill-cell"),
         paste_onto_spill: ctx.avoid("c31-paste-onto-a-spill-cell"),
+        cut_with_array_literal: ctx.avoid("c16-moved:arrays"),
     };
     ctx.campaign("histories", cases, || strategy(len, no_cse), move |c: &Case| check_with(c, avoid), |c| serde_json::to_value(c).unwrap_or(Value::Null));
 }
